@@ -170,12 +170,16 @@ fn cuts_for(p: &Partition, total: usize, rng: &mut Rng) -> Vec<usize> {
 /// quiescence barrier and compare the number of items the client holds with the number of
 /// messages completely sent.
 fn deliver(msgs: &[Vec<u8>], expect: &[String], part: &Partition, rng: &mut Rng, rep: &mut Report, replay: &Value, sig_extra: &str) -> bool {
+    // messages addressed to nobody (ID 0 / unknown ID) are recognised by their marker bytes
+    let is_item: Vec<bool> = msgs.iter().map(|m| !contains(m, b"NOBODY")).collect();
     let total: usize = msgs.iter().map(|m| m.len()).sum();
     let mut ends = vec![];
     let mut acc = 0;
-    for m in msgs {
+    for (m, item) in msgs.iter().zip(&is_item) {
         acc += m.len();
-        ends.push(acc);
+        if *item {
+            ends.push(acc);
+        }
     }
     let cuts = cuts_for(part, total, rng);
     let all: Vec<u8> = msgs.concat();
@@ -219,15 +223,23 @@ fn deliver(msgs: &[Vec<u8>], expect: &[String], part: &Partition, rng: &mut Rng,
                 timeline.push((p, got.lock().unwrap().len()));
             }
         }
-        let finish = world::watchdog(client).await.map(|r| r.unwrap_or_else(|_| "client panicked".into())).unwrap_or_else(|_| "HUNG".into());
-        drop(server);
-        let _ = c.driver.await;
+        let mut client = client;
+        let finish = match world::watchdog(&mut client).await {
+            Ok(r) => r.unwrap_or_else(|_| "client panicked".into()),
+            Err(()) => {
+                // the reader can never complete: stop it so that its handle does not keep the driver alive
+                client.abort();
+                "HUNG".into()
+            }
+        };
+        server.eof();
+        let _ = world::watchdog(c.driver).await;
         let f = got.lock().unwrap().clone();
         let _ = expect_v;
         (timeline, f, finish)
     });
     let mut ok = true;
-    let n_items = msgs.len() - 1; // last is Done
+    let n_items = is_item.iter().filter(|x| **x).count() - 1; // last is Done
     for (sent, held) in &timeline {
         let complete = ends.iter().filter(|&&e| e <= *sent).count().min(n_items);
         if *held > complete {
@@ -251,6 +263,10 @@ fn deliver(msgs: &[Vec<u8>], expect: &[String], part: &Partition, rng: &mut Rng,
     ok
 }
 
+fn contains(hay: &[u8], needle: &[u8]) -> bool {
+    hay.windows(needle.len()).any(|w| w == needle)
+}
+
 fn short(p: &Partition) -> String {
     format!("{:?}", p)
 }
@@ -265,6 +281,17 @@ fn expected_items(plan: &[(Resp, Option<Vec<RespCtl>>)]) -> Vec<String> {
         .collect()
 }
 
+/// A well-formed message for nobody: unsolicited notification (ID 0) or a response to an unknown ID.
+fn nobody(rng: &mut Rng) -> Vec<u8> {
+    let id = if rng.bool() { 0 } else { 1_000_000 + rng.below(1000) as i64 };
+    let r = if rng.bool() {
+        Resp::Extended { res: Res::code(52, "NOBODY"), name: Some("1.3.6.1.4.1.1466.20036".into()), value: None }
+    } else {
+        Resp::Entry { dn: b"NOBODY".to_vec(), attrs: vec![] }
+    };
+    encode(rng, id, &r, &None)
+}
+
 fn gen_sequence(rng: &mut Rng, max_msgs: usize, allow_big: bool) -> (Vec<Vec<u8>>, Vec<String>) {
     let n = 1 + rng.usize(max_msgs);
     let mut plan = vec![];
@@ -272,7 +299,16 @@ fn gen_sequence(rng: &mut Rng, max_msgs: usize, allow_big: bool) -> (Vec<Vec<u8>
         let big = allow_big && rng.chance(1, 6);
         plan.push(gen_item(rng, 1, k, big));
     }
-    let mut msgs: Vec<Vec<u8>> = plan.iter().map(|(r, c)| encode(rng, 1, r, c)).collect();
+    let mut msgs: Vec<Vec<u8>> = vec![];
+    for (r, c) in &plan {
+        if rng.chance(1, 6) {
+            msgs.push(nobody(rng));
+        }
+        msgs.push(encode(rng, 1, r, c));
+    }
+    if rng.chance(1, 4) {
+        msgs.push(nobody(rng));
+    }
     msgs.push(ber::encode_min(&resp_node(1, &Resp::Done(Res::ok("done")), None)));
     (msgs, expected_items(&plan))
 }
